@@ -119,6 +119,15 @@ def make_jobs(chk):
         n += 1
         jobs.append(SessionJob("hc%d:leaf66k" % n, b"", [], drivers.STANDARD, "BASE", cmds=["step"] * 253 + ["rewind"] * 2 + ["step"] * 3 + ["rewind"] * 4 + ["steps"],
                                cmp=["stack", "alt", "cond", "err", "done", "pc", "seq"], hist=True, auto=True, txctx={"tx": c.tx.hex(), "txin": c.funding.hex(), "select": -1}))
+    # going back during the taproot commitment steps (they are not undoable: a rewind there is refused and changes nothing), paths of 0..5 nodes
+    import c05
+    for m in (0, 1, 2, 3, 5):
+        for pat in (["step", "step", "rewind", "rewind", "steps"], ["step", "rewind", "step", "step", "rewind", "rewind", "rewind", "steps"],
+                    ["step"] * (m + 1) + ["rewind"] * 2 + ["steps"], ["step"] * (m + 3) + ["rewind"] * (m + 4) + ["steps"], ["step"] * (m + 4) + ["rewind"] * 2 + ["step", "rewind"] * 2 + ["steps"]):
+            spk_, script_, ctrl_ = c05.build(rng, m, ["rnd"], script=b"\x51" + bytes([O["NOP"]]) * 2 + bytes([O["1"], O["DROP"]]))
+            j = c05.mkjob(rng, "x", spk_, script_, ctrl_)
+            n += 1
+            jobs.append(SessionJob("hc%d:commit-rewind:m%d" % (n, m), b"", [], drivers.STANDARD, "BASE", cmds=pat, cmp=c05.CMP, hist=True, auto=True, txctx=j.txctx))
     # random walks on long generated scripts
     for i, (sv, s) in enumerate(G.long_scripts(rng, 60 if quick else 800)):
         cmds = []
